@@ -1397,6 +1397,8 @@ class Machine:
         if isinstance(a, Tup) and isinstance(b, Tup):
             return self.conj([self.eq(x, y) for x, y in zip(a.fields, b.fields)])
         if isinstance(a, Enum) and isinstance(b, Enum):
+            if a.ty == 'Cow' and b.ty == 'Cow':
+                return self.eq(a.fields[0], b.fields[0])
             if a.variant != b.variant:
                 return False
             return self.conj([self.eq(x, y) for x, y in zip(a.fields, b.fields)])
